@@ -1070,7 +1070,8 @@ func (d *Data) addSubvolumes(layer *layerT, subvolumes *subvolumesT, batchsize i
 				maxCorner := dvid.ChunkPoint3d{endX, endY, layer.maxZ}
 				holeBeg, holeEnd, found := findXHoles(actives, begX, endX)
 				var numActive, numTotal uint64
-				if found && merge {
+				if found && merge && len(subvolumes.Subvolumes) > 0 {
+					// (merging extends the previous subvolume, so there has to be one)
 					// MinCorner stays same since we are extended in X
 					if holeBeg-1 >= begX {
 						lastI := len(subvolumes.Subvolumes) - 1
